@@ -17,6 +17,9 @@ for f in sorted(glob.glob(os.path.join(root, ".work", "cover", "*.out"))):
         m = re.match(r"(\S+) (\d+) (\d+)$", l.strip())
         if m:
             k = m.group(1)
+            src = k.split(":")[0].replace("github.com/avfs/avfs", "/repo")
+            if not os.path.exists(src):
+                continue  # files that only exist in the build overlay (verifsync, invariant walkers)
             blocks[k] = (int(m.group(2)), max(blocks.get(k, (0, 0))[1], int(m.group(3))))
 merged = os.path.join(root, ".work", "cover", "merged.profile")
 with open(merged, "w") as o:
@@ -36,11 +39,11 @@ for l in out.splitlines():
         continue
     if pct == 0:
         zero.append("%s %s" % (file.replace("github.com/avfs/avfs/", ""), fn))
-    elif pct < 60:
+    elif pct < 85:
         low.append("%5.1f%% %s %s" % (pct, file.replace("github.com/avfs/avfs/", ""), fn))
 print("functions never executed (%d):" % len(zero))
 for z in zero:
     print("  " + z)
-print("functions below 60%% (%d):" % len(low))
+print("functions below 85%% (%d):" % len(low))
 for z in sorted(low):
     print("  " + z)
